@@ -794,7 +794,16 @@ class Scope:
         for k, v in val.items():
           put(target[key], k, v)
       else:
-        target[key] = val
+        # later updates are merged into the stored dict in place: never store
+        # (and thereby modify) a dict that is owned by the caller.
+        target[key] = copy_dicts(val) if isinstance(val, dict) else val
+
+    def copy_dicts(x):
+      if isinstance(x, dict):
+        x = x.copy()
+        for k, v in x.items():
+          x[k] = copy_dicts(v)
+      return x
 
     put(variables, name, value)
 
